@@ -75,6 +75,39 @@ def numeric_family(ctx, problems):
                              dict(code=code, ra=ra, dec=dec, angle=ang, scale=scale, parity=parity, pixel=[x, y])))
 
 
+def mixed_unitness(ctx, problems):
+    """a forward transform that carries units with a user-supplied inverse that does not: world positions given as numbers,
+    quantities (any convertible unit) or objects must all be inverted by that inverse"""
+    import astropy.units as u
+    from astropy.modeling import models
+    from gwcs import wcs, coordinate_frames as cf
+    rng = ctx.rng
+    for _ in range(6 if ctx.quick else 60):
+        a, b = rng.choice([0.5, 2.0, 4.0]), rng.choice([400.0, 500.0, 1000.0])        # nm / pix, nm
+        det = cf.CoordinateFrame(1, ("PIXEL",), (0,), unit=(u.pix,), name="detector")
+        spec = cf.SpectralFrame(axes_order=(0,), unit=(u.um,), name="wave")
+        t = models.Multiply(a * u.nm / u.pix) | models.Shift(b * u.nm)
+        t.inverse = models.Shift(-b / 1000.0) | models.Scale(1000.0 / a)               # um (frame unit) -> pixel, bare numbers
+        w = wcs.WCS([(det, t), (spec, None)])
+        x = float(rng.randint(0, 400)) / 4.0
+        lam_um = (a * x + b) / 1000.0
+        rec = dict(forward=f"Multiply({a} nm/pix) | Shift({b} nm)", inverse=f"Shift({-b / 1000.0}) | Scale({1000.0 / a})", pixel=x)
+        for label, arg in (("number in frame units", lam_um), ("Quantity in nm", lam_um * 1000.0 * u.nm), ("Quantity in um", lam_um * u.um),
+                           ("Quantity in Angstrom", lam_um * 1e4 * u.AA)):
+            try:
+                got = w.invert(arg)
+                got = float(getattr(got, "value", got))
+                unit = getattr(w.invert(arg), "unit", None)
+            except Exception as e:  # noqa
+                problems.append((f"[mixed unit-ness] invert({label}) raised {type(e).__name__} although the user-supplied inverse maps "
+                                 f"{lam_um} um to pixel {x}", dict(rec, world=label)))
+                continue
+            if abs(got - x) > 1e-9 * max(1.0, abs(x)) or unit is not None:
+                problems.append((f"[mixed unit-ness] invert({label}) = {got} {unit or ''} but the user-supplied inverse maps {lam_um} um to pixel {x}",
+                                 dict(rec, world=label)))
+        ctx.case(key=("mixed", a, b, x), nontrivial=True, kind="mixed-unitness", sample=rec)
+
+
 def run(ctx):
     from lib import pins
     from py2coq import gen_pipeline as G, t2
@@ -182,6 +215,7 @@ def run(ctx):
             terms.append(f"({cw}, {ctab}, {gzl(pt)}, {C01.coq_expected(exp, ints)})")
             meta.append((phase, n, k, pt))
     numeric_family(ctx, problems)
+    mixed_unitness(ctx, problems)
     checker = "(fun c => match c with (w, tab, x, e) => agrees tab (m_backward_transform w) x e end)"
     failing = ctx.coq_failing("cases", HEADER, terms, checker, label="WC01") if gen_src is not None else None
     ctx.oblige("correspondence: model backward transform (vm_compute) = implementation, fresh and after in-place edits",
